@@ -5,7 +5,7 @@ import random
 
 from . import world as W
 
-NVMAX, NLMAX = 6, 36
+NVMAX, NLMAX = 12, 144      # judging pool: counts up to 12
 
 
 def run_randgraph(count, kind, conn, ensure, script=None, seed=None):
